@@ -288,7 +288,7 @@ def exp_axioms(apps=None, pairwise=True):
 # ------------------------------------------------------------------ XF
 class XF:
     __slots__ = ("nan", "pinf", "ninf", "v")
-    __array_priority__ = 1000
+    # no __array_priority__/__array_ufunc__: numpy loops element-wise over object arrays and calls the scalar operators
 
     def __init__(self, v, nan=False, pinf=False, ninf=False):
         self.v = v
@@ -365,41 +365,57 @@ class XF:
 
     # -- python operators (numpy object arrays call these; torch tensors reach the reflected forms)
     def __add__(s, o):
+        if _is_nd(o):
+            return NotImplemented
         if _is_tensor(o):
             return _tensor_op("+", s, o)
         return xadd(s, XF.of(o))
 
     def __radd__(s, o):
+        if _is_nd(o):
+            return NotImplemented
         if _is_tensor(o):
             return _tensor_op("+", o, s)
         return xadd(XF.of(o), s)
 
     def __sub__(s, o):
+        if _is_nd(o):
+            return NotImplemented
         if _is_tensor(o):
             return _tensor_op("-", s, o)
         return xsub(s, XF.of(o))
 
     def __rsub__(s, o):
+        if _is_nd(o):
+            return NotImplemented
         if _is_tensor(o):
             return _tensor_op("-", o, s)
         return xsub(XF.of(o), s)
 
     def __mul__(s, o):
+        if _is_nd(o):
+            return NotImplemented
         if _is_tensor(o):
             return _tensor_op("*", s, o)
         return xmul(s, XF.of(o))
 
     def __rmul__(s, o):
+        if _is_nd(o):
+            return NotImplemented
         if _is_tensor(o):
             return _tensor_op("*", o, s)
         return xmul(XF.of(o), s)
 
     def __truediv__(s, o):
+        if _is_nd(o):
+            return NotImplemented
         if _is_tensor(o):
             return _tensor_op("/", s, o)
         return xdiv(s, XF.of(o))
 
     def __rtruediv__(s, o):
+        if _is_nd(o):
+            return NotImplemented
         if _is_tensor(o):
             return _tensor_op("/", o, s)
         return xdiv(XF.of(o), s)
@@ -417,26 +433,36 @@ class XF:
         return xpow(s, p)
 
     def __lt__(s, o):
+        if _is_nd(o):
+            return NotImplemented
         if _is_tensor(o):
             return _tensor_op("<", s, o)
         return SB(xcmp("<", s, XF.of(o)))
 
     def __le__(s, o):
+        if _is_nd(o):
+            return NotImplemented
         if _is_tensor(o):
             return _tensor_op("<=", s, o)
         return SB(xcmp("<=", s, XF.of(o)))
 
     def __gt__(s, o):
+        if _is_nd(o):
+            return NotImplemented
         if _is_tensor(o):
             return _tensor_op(">", s, o)
         return SB(xcmp(">", s, XF.of(o)))
 
     def __ge__(s, o):
+        if _is_nd(o):
+            return NotImplemented
         if _is_tensor(o):
             return _tensor_op(">=", s, o)
         return SB(xcmp(">=", s, XF.of(o)))
 
     def __eq__(s, o):
+        if _is_nd(o):
+            return NotImplemented
         if _is_tensor(o):
             return _tensor_op("==", s, o)
         try:
@@ -446,6 +472,8 @@ class XF:
         return SB(xcmp("==", s, o))
 
     def __ne__(s, o):
+        if _is_nd(o):
+            return NotImplemented
         try:
             o = XF.of(o)
         except Exception:
@@ -486,6 +514,10 @@ class XF:
 
 def _is_tensor(o):
     return type(o).__module__.startswith("torch") or type(o).__name__ == "SymTensor"
+
+
+def _is_nd(o):
+    return type(o).__module__ == "numpy" and hasattr(o, "ndim") and hasattr(o, "reshape") or type(o).__name__ == "SymNd"
 
 
 def _tensor_op(op, a, b):
